@@ -2,8 +2,8 @@ package exec
 
 import (
 	"fmt"
+	"go/token"
 	"go/types"
-	"sort"
 )
 
 func deepEq(x, y value) bool {
@@ -119,7 +119,23 @@ func init() {
 	}
 	externals["sort.Strings"] = func(fr *frame, args []value) value {
 		sl := args[0].([]value)
-		sort.SliceStable(sl, func(i, j int) bool { return sl[i].(string) < sl[j].(string) })
+		less := func(i, j int) bool {
+			a, aok := sl[i].(string)
+			b, bok := sl[j].(string)
+			if aok && bok {
+				return a < b
+			}
+			r := symStrBinop(token.LSS, sl[i], sl[j])
+			if sv, ok := r.(symv); ok {
+				return decide(sv.t)
+			}
+			return r.(bool)
+		}
+		for i := 1; i < len(sl); i++ {
+			for j := i; j > 0 && less(j, j-1); j-- {
+				sl[j], sl[j-1] = sl[j-1], sl[j]
+			}
+		}
 		return nil
 	}
 	_ = fmt.Sprint
